@@ -315,6 +315,8 @@ class WSStream:
 
     async def _handle_events(self) -> None:
         for event in self.connection.events():
+            if self.closed:
+                break  # Closed whilst delivering, nothing follows the disconnect
             if isinstance(event, Message):
                 if self.connection.state == ConnectionState.LOCAL_CLOSING:
                     continue  # Closing, nothing further is delivered
